@@ -651,3 +651,64 @@ B("B225", "C11-D", [(DRV, "        LDOIs[(var, 1)] = percolate_space_strict(netw
   "LDOI of x=1 computed from x=0")
 B("B226", "C11-A", [(SPACE, "        result[var_name] = cast(Literal[0, 1], int(value))", "        if value:\n            result[var_name] = cast(Literal[0, 1], int(value))")],
   "values fixed to 0 are dropped from the percolated space")
+
+
+# ------------------------------------------------------------------------------------------ mechanical benign transforms
+def _rename_locals_in_tree(tree: ast.Module, suffix: str, pick=None) -> int:
+    """Rename every local variable (not parameters, not globals) of every top-level function / method, consistently
+    through nested functions and comprehensions. Behaviour-preserving by construction."""
+    n_renamed = 0
+
+    def top_functions(body):
+        for st in body:
+            if isinstance(st, ast.FunctionDef):
+                yield st
+            elif isinstance(st, ast.ClassDef):
+                yield from top_functions(st.body)
+            elif isinstance(st, (ast.If, ast.Try)):
+                yield from top_functions(st.body)
+                yield from top_functions(getattr(st, "orelse", []))
+
+    module_names = {n.id for st in tree.body for n in ast.walk(st) if isinstance(n, ast.Name) and isinstance(n.ctx, ast.Store)
+                    and not isinstance(st, (ast.FunctionDef, ast.ClassDef))}
+    for fn in top_functions(tree.body):
+        params, stored, declared, nested = set(), set(), set(), set()
+        for n in ast.walk(fn):
+            if isinstance(n, (ast.FunctionDef, ast.Lambda)):
+                a = n.args
+                params |= {x.arg for x in a.posonlyargs + a.args + a.kwonlyargs}
+                if a.vararg:
+                    params.add(a.vararg.arg)
+                if a.kwarg:
+                    params.add(a.kwarg.arg)
+                if isinstance(n, ast.FunctionDef) and n is not fn:
+                    nested.add(n.name)
+            elif isinstance(n, ast.Name) and isinstance(n.ctx, (ast.Store, ast.Del)):
+                stored.add(n.id)
+            elif isinstance(n, (ast.Global, ast.Nonlocal)):
+                declared |= set(n.names)
+            elif isinstance(n, ast.ExceptHandler) and n.name:
+                stored.add(n.name)
+        names = stored - params - declared - nested - module_names
+        if pick is not None:
+            names = {x for x in names if pick(x)}
+        if not names:
+            continue
+        for n in ast.walk(fn):
+            if isinstance(n, ast.Name) and n.id in names:
+                n.id = n.id + suffix
+                n_renamed += 1
+            elif isinstance(n, ast.ExceptHandler) and n.name in names:
+                n.name = n.name + suffix
+    return n_renamed
+
+
+def rename_all_locals(root: str) -> None:
+    from pathlib import Path
+    for f in Path(root, "biobalm").rglob("*.py"):
+        tree = ast.parse(f.read_text())
+        _rename_locals_in_tree(tree, "_rn")
+        f.write_text(ast.unparse(tree))
+
+
+V("V200", "every local variable of every function renamed (<name>_rn)", transform="rename_all_locals")
